@@ -1,6 +1,6 @@
 CONSTANTS
-  Mode = "flows"
-  Hub = TRUE
+  Mode = "policies"
+  Hub = FALSE
   Managed = TRUE
   ValidateLenient = FALSE
   LoadSkipsValidation = FALSE
@@ -11,26 +11,26 @@ CONSTANTS
   PolicyRoutesInFlows = FALSE
   GetReloads = FALSE
   DoctorFromDisk = FALSE
-  RestoreSkipped = TRUE
+  RestoreSkipped = FALSE
   DevMC = "both"
   RecordHistory = FALSE
   Sampled = FALSE
   MaxHist = 0
-  TagsA = {"v1", "junk"}
-  TagsB = {"none", "v1"}
-  TagsC = {"none"}
-  TagsQ = {"none"}
-  TagsG = {"none"}
-  PayA = {"none", "v2", "bad"}
-  PayB = {"none", "dup"}
-  PayQ = {"none"}
-  PayG = {"none", "gbad"}
-  WithGate = TRUE
+  TagsA = {}
+  TagsB = {}
+  TagsC = {}
+  TagsQ = {}
+  TagsG = {}
+  PayA = {}
+  PayB = {}
+  PayQ = {}
+  PayG = {}
+  PolTagsMC = {"none", "P1", "P2", "P3", "Q1", "Q2", "punk", "pjunk", "pdup", "pconf"}
+  BodyTagsMC = {"P1", "P2", "Q1", "punk", "pjunk", "pconf"}
+  WithGate = FALSE
   WithFault = TRUE
-  WrongVerbs = FALSE
-  StateFiles = {}
-  PolTagsMC = {}
-  BodyTagsMC = {}
+  WrongVerbs = TRUE
+  StateFiles = {"discover", "remedy"}
 SPECIFICATION SpecMC
 INVARIANT Holds
 VIEW View
